@@ -9,24 +9,38 @@ def make_envs():
     from BPTK_Py import Model, sd_functions as sd
     envs = []
     for e in expr_gen.ENVS:
-        m = Model(starttime=0.0, stoptime=2.0, dt=1.0, name="c02")
+        m = Model(starttime=0.0, stoptime=3.0, dt=1.0, name="c02")
         ns = {"sd": sd}
         for n in "abc":
             el = m.constant(n)
             el.equation = float(Fraction(*e[n]))
             ns[n] = el
         x = m.converter("x")
-        envs.append((m, ns, x))
+        x2 = m.converter("x2")
+        sx = m.stock("sx")
+        sx.initial_value = 0.0
+        envs.append((m, ns, {"conv": x, "conv2": x2, "stock": sx}))
     return envs
 
 
-def evaluate(envs, py):
-    """returns per environment ("val", float) | ("rejected", exception text)"""
+def read(el, mode):
+    """the value of the expression at time 1: a converter is its equation; a stock integrates it (dt = 1), so the
+    expression's value at time 1 is the stock's increment from 1 to 2 (the equation is rendered for time t - dt)"""
+    return el(1.0) if mode != "stock" else el(2.0) - el(1.0)
+
+
+def evaluate(envs, py, mode="conv", defined=None):
+    """returns per environment ("val", float) | ("rejected", exception text); environments in which the reference is
+    undefined are not evaluated at all (factorial(13 ** 7) would keep the interpreter busy for hours)"""
     out = []
-    for m, ns, x in envs:
+    for k, (m, ns, els) in enumerate(envs):
+        if defined is not None and not defined[k]:
+            out.append(("skipped", None))
+            continue
+        x = els[mode]
         try:
             x.equation = eval(py, dict(ns))
-            v = x(1.0)
+            v = read(x, mode)
             if isinstance(v, complex) or v is None:
                 out.append(("rejected", "value %r" % (v,)))
             else:
@@ -36,10 +50,54 @@ def evaluate(envs, py):
     return out
 
 
-def check_trees(R, envs, trees, label):
+def evaluate_shared(envs, prog):
+    """u = <bind>; both uses are built from the same object u, then assigned, then evaluated"""
+    out = []
+    for k, (m, ns, els) in enumerate(envs):
+        if prog["val"][k][1] == 0 or prog["val2"][k][1] == 0:
+            out.append(("skipped", None))
+            continue
+        try:
+            scope = dict(ns)
+            scope["u"] = eval(prog["bind"], dict(ns))
+            e1 = eval(prog["py"], scope)
+            e2 = eval(prog["py2"], scope)
+            els["conv"].equation = e1
+            els["conv2"].equation = e2
+            v1, v2 = els["conv"](1.0), els["conv2"](1.0)
+            if any(isinstance(v, complex) or v is None for v in (v1, v2)):
+                out.append(("rejected", "value %r %r" % (v1, v2)))
+            else:
+                out.append(("val", (float(v1), float(v2))))
+        except Exception as e:
+            out.append(("rejected", "%s: %s" % (type(e).__name__, str(e)[:80])))
+    return out
+
+
+def check_shared(R, envs, progs):
+    n_cmp = 0
+    for p in progs:
+        got = evaluate_shared(envs, p)
+        for i, (r1, r2, (kind, v)) in enumerate(zip(p["val"], p["val2"], got)):
+            if r1[1] == 0 or r2[1] == 0 or kind == "rejected":
+                continue
+            n_cmp += 1
+            exp = (r1[0] / r1[1], r2[0] / r2[1])
+            if not all(math.isclose(a, b, rel_tol=1e-9, abs_tol=1e-9) for a, b in zip(v, exp)):
+                R.violation("expression built from a shared sub-expression object differs from the value of its own tree",
+                            {"u": p["bind"], "first_use": p["py"], "second_use": p["py2"], "environment": expr_gen.ENVS[i],
+                             "expected": exp, "observed": v})
+                break
+        if len(R.violations) >= 25:
+            break
+    R.add("shared_programs_compared", n_cmp)
+    return n_cmp
+
+
+def check_trees(R, envs, trees, label, mode="conv"):
     n_cmp = n_rej = n_undef = 0
     for t in trees:
-        got = evaluate(envs, t["py"])
+        got = evaluate(envs, t["py"], mode, [v[1] != 0 for v in t["val"]])
         for i, (ref, (kind, v)) in enumerate(zip(t["val"], got)):
             if ref[1] == 0:
                 n_undef += 1
@@ -51,7 +109,8 @@ def check_trees(R, envs, trees, label):
             n_cmp += 1
             if not math.isclose(v, exp, rel_tol=1e-9, abs_tol=1e-9):
                 R.violation("DSL value differs from the value of the Python expression",
-                            {"expression": t["py"], "environment": expr_gen.ENVS[i], "expected": exp, "observed": v, "family": label})
+                            {"expression": t["py"], "environment": expr_gen.ENVS[i], "expected": exp, "observed": v, "family": label,
+                             "used_as": "net flow of a stock (equation read at t - dt)" if mode == "stock" else "converter equation"})
                 break
         if len(R.violations) >= 25:
             break
@@ -72,6 +131,17 @@ def run(tier, replay_file=None):
     R.cov["transitions"] = st1["generated"] + st2["generated"]
     R.cov["pair_trees"], R.cov["chain_trees"] = len(pairs), len(chains)
     n = check_trees(R, envs, pairs, "pairs") + check_trees(R, envs, chains, "chains")
+    # the same trees as the net flow of a stock: every operator renders its operands for the time t - dt
+    spairs = pairs if not quick else rng.sample(pairs, min(1500, len(pairs)))
+    n += check_trees(R, envs, spairs, "pairs", "stock") + check_trees(R, envs, chains, "chains", "stock")
+    R.cov["stock_equation_trees"] = len(spairs) + len(chains)
+    shared, st4 = expr_gen.family("shared")
+    R.cov["states"] += st4["distinct"]
+    R.cov["transitions"] += st4["generated"]
+    R.cov["shared_programs"] = len(shared)
+    if quick:
+        shared = rng.sample(shared, min(2500, len(shared)))
+    check_shared(R, envs, shared)
     d2, st3 = expr_gen.family("depth2", binops='{"+","-","*","/","**","%",">","<="}')
     R.cov["states"] += st3["distinct"]
     R.cov["transitions"] += st3["generated"]
